@@ -22,7 +22,7 @@ RULE = (
 )
 ASSUMPTIONS = [
     "positions are equal when within 1e-7 rad or inside the same 1e-8 pole cap (library's documented snapping)",
-    "generated nodes are exactly at a pole or at least 0.5 degrees away from it",
+    "generated nodes are exactly at a pole or at least 0.02 degrees away from it (polar-patch family: 0.02 .. 0.85 degrees; the library's documented pole cap is 0.0081 degrees wide)",
     "unit length is asserted for Cartesian coordinates the library derived, not for source-supplied ones before normalisation",
 ]
 BUDGET = {
@@ -41,13 +41,14 @@ def _case(draw, tier):
     if src.startswith("mpas"):
         mesh = draw(meshgen.voronoi_mesh(6, 26 if big else 14))
     else:
-        mesh = draw(meshgen.any_mesh(max_pts=30 if big else 14, tiny=True, orphans=True))
+        mesh = draw(meshgen.any_mesh(max_pts=30 if big else 14, tiny=True, orphans=True, polar=True))
     c = {
         "mesh": mesh,
         "src": src,
         "order": draw(st.permutations(list(range(len(PROPS))))),
         "normalize_at": draw(sampled_from([None, None, 0, 3, 8, 15])),
         "radius": draw(sampled_from([1.0, 6371229.0, 2.5])),
+        "centre_radius": draw(sampled_from([1.0, 2.0, 0.5, 6371.229])),
         "face_c": draw(sampled_from(["none", "lonlat", "lonlat360", "xyz", "both"])),
         "edge_c": draw(sampled_from(["none", "lonlat", "xyz", "both"])),
         "edge_seed": draw(st.integers(0, 999)),
@@ -65,9 +66,11 @@ def strategy(tier, excl):
 def classify(case):
     labs = ["src:" + case["src"]]
     ml = meshgen.mesh_labels(case["mesh"])
-    labs += [l for l in ml if l in ("pole-node", "node-on-antimeridian", "antimeridian-face", "partial", "mixed-size")]
+    labs += [l for l in ml if l in ("pole-node", "node-on-antimeridian", "antimeridian-face", "partial", "mixed-size", "family:polar-patch")]
     if case["src"] == "topo-centres":
         labs += ["face_c:" + case["face_c"], "edge_c:" + case["edge_c"]]
+        if case.get("centre_radius", 1.0) != 1.0 and ("xyz" in (case["face_c"], case["edge_c"]) or "both" in (case["face_c"], case["edge_c"])):
+            labs.append("supplied-centres-not-unit")
     if case.get("recentre"):
         labs.append("history:recentre-" + case["recentre"].split()[0])
     if case["normalize_at"] is not None:
@@ -136,8 +139,10 @@ def _build(case):
             kw["face_lon"], kw["face_lat"] = lon, lat
             info["supplied"].add("face_ll")
         if case["face_c"] in ("xyz", "both"):
-            kw["face_x"], kw["face_y"], kw["face_z"] = fc2[:, 0].copy(), fc2[:, 1].copy(), fc2[:, 2].copy()
+            Rc = float(case.get("centre_radius", 1.0))  # supplied Cartesian centres need not be of unit length
+            kw["face_x"], kw["face_y"], kw["face_z"] = Rc * fc2[:, 0], Rc * fc2[:, 1], Rc * fc2[:, 2]
             info["supplied"].add("face_xyz")
+            info["centre_radius"] = Rc
         if case["face_c"] != "none":
             info["face_truth"] = fc2
         if case["edge_c"] != "none":
@@ -153,8 +158,10 @@ def _build(case):
                 kw["edge_lon"], kw["edge_lat"] = lon, lat
                 info["supplied"].add("edge_ll")
             if case["edge_c"] in ("xyz", "both"):
-                kw["edge_x"], kw["edge_y"], kw["edge_z"] = ec[:, 0].copy(), ec[:, 1].copy(), ec[:, 2].copy()
+                Rc = float(case.get("centre_radius", 1.0))
+                kw["edge_x"], kw["edge_y"], kw["edge_z"] = Rc * ec[:, 0], Rc * ec[:, 1], Rc * ec[:, 2]
                 info["supplied"].add("edge_xyz")
+                info["centre_radius"] = Rc
             info["edge_truth"] = [(refmodel.edge_key(a, b), ec[k]) for k, (a, b) in enumerate(edges)]
         g = ux.Grid.from_topology(nodes[:, 0].copy(), nodes[:, 1].copy(), build.padded_faces(mesh), fill_value=FILL, **kw)
         info["supplied"].add("node_ll")
@@ -281,12 +288,13 @@ def run_case(case, ctx):
             if np.any(np.abs(nrm - 1) > 1e-12):
                 i = int(np.argmax(np.abs(nrm - 1)))
                 bad("unit_length", f"{kind}:{'derived' if derived else 'after-normalize'}", f"{kind} {i}: |xyz| = {nrm[i]!r}")
-        elif not normalized and R != 1.0:
+        elif not normalized and (info.get("centre_radius", 1.0) if (kind != "node" and case["src"] == "topo-centres") else R) != 1.0:
             # supplied and not normalised: must still be what the source supplied (length R)
+            Rk = info.get("centre_radius", 1.0) if (kind != "node" and case["src"] == "topo-centres") else R
             ctx.ev("supplied_kept")
             nrm = np.sqrt(final[f"{kind}_x"] ** 2 + final[f"{kind}_y"] ** 2 + final[f"{kind}_z"] ** 2)
-            if np.any(np.abs(nrm / R - 1) > 1e-9):
-                bad("supplied_kept", f"{kind}:length-changed", f"|xyz| no longer the supplied radius {R}: {nrm[:3]}")
+            if np.any(np.abs(nrm / Rk - 1) > 1e-9):
+                bad("supplied_kept", f"{kind}:length-changed", f"|xyz| no longer the supplied radius {Rk}: {nrm[:3]}")
 
     # ---- edge centres
     ctx.ev("centres_edge")
